@@ -295,7 +295,7 @@ func startFake(work string, f *fake) {
 // ---------------------------------------------------------------- episode
 
 // Main runs one episode: prodwt <workdir> <seed> <scenario>
-// scenarios: control | weekban | weekban-other
+// scenarios: control | weekban | weekban-other | life (see life.go)
 func Main() {
 	if len(os.Args) != 4 {
 		fmt.Fprintln(os.Stderr, "usage: c12prod <workdir> <seed> <control|weekban|weekban-other>")
@@ -310,6 +310,10 @@ func Main() {
 
 	f := &fake{scenario: scenario, devs: map[string]*dev{}, byLat: map[string]*dev{}, rng: rng}
 	startFake(work, f)
+	if scenario == "life" {
+		emit(lifeEpisode(work, seed, f))
+		return
+	}
 
 	dir := filepath.Join(work, "srv")
 	if err := os.MkdirAll(filepath.Join(dir, "watttime_data"), 0755); err != nil {
